@@ -39,12 +39,13 @@ class Automaton(object):
         self.rec = self.ix.parse_type('automata').rec
         if self.rec.size is None:
             raise AnalysisBroken('no layout for automata')
-        I, outs = run_entry(prog, AUTOMATA_UNIT, ctor, lambda I, st: [], port=PortModel(alloc_may_fail=False),
+        I, outs = run_entry(prog, AUTOMATA_UNIT, ctor, lambda I, st: [], port=PortModel(alloc_may_fail=False, clock_name='ctor.clock'),
                             name=ctor)
         self.ctor_engine = I
-        if len(outs) != 1:
-            raise AnalysisBroken('%s: expected one success path, got %d' % (ctor, len(outs)))
+        if not outs:
+            raise AnalysisBroken('%s: no success path' % ctor)
         self.state0, self.ret = outs[0]
+        self.alt = outs[1:]        # further success paths (e.g. a clock wrapper that branches): must build the same tables
         t = self.state0.canon(self.ret.t)
         if t[0] != 'ptr':
             raise AnalysisBroken('%s does not return a pointer to a fresh object' % ctor)
@@ -65,6 +66,22 @@ class Automaton(object):
             b = self.toff + i * self.tsize
             self.rows.append((self.const_at(b + trec.field('from')[1], 1), self.const_at(b + trec.field('to')[1], 1),
                               self.const_at(b + trec.field('with')[1], 1, True)))
+        if self.alt:
+            sig = (self.states_no, self.transitions_no, self.initial, tuple(self.timeouts), tuple(self.rows))
+            keep0, keepr = self.state0, self.ret
+            for st_, ret_ in self.alt:
+                t_ = st_.canon(ret_.t)
+                if t_ != t:
+                    raise AnalysisBroken('%s: success paths return different objects' % ctor)
+                self.state0, self.ret = st_, ret_
+                srec_, trec_ = srec, trec
+                other = (self.const_field('states_no'), self.const_field('transitions_no'), self.const_field('current_state'),
+                         tuple(self.const_at(self.soff + i * self.ssize + srec_.field('timeout')[1], 2, True) for i in range(self.states_no)),
+                         tuple((self.const_at(self.toff + i * self.tsize + trec_.field('from')[1], 1), self.const_at(self.toff + i * self.tsize + trec_.field('to')[1], 1),
+                                self.const_at(self.toff + i * self.tsize + trec_.field('with')[1], 1, True)) for i in range(self.transitions_no)))
+                if other != sig:
+                    raise AnalysisBroken('%s builds different tables on different success paths' % ctor)
+            self.state0, self.ret = keep0, keepr
 
     def const_at(self, off, n, signed=False):
         o = self.state0.objs[self.oid]
@@ -106,7 +123,7 @@ class Automaton(object):
         st.tags = {}
         a = st.objs[self.oid]
         a.cells[((), self.field_off('current_state'))] = (1, C(s))
-        lt = ('sym', 'last_ts@entry', 1, 1 << 62)
+        lt = ('sym', 'last_ts@entry', 0, 1 << 62)
         a.cells[((), self.field_off('last_ts'))] = (8, lt)
         st.tags['clkfloor.s'] = (lt,)
         if extra_null:
@@ -120,10 +137,27 @@ class Automaton(object):
             return [Val(ix.parse_type('automata *'), ret.t), Val(ix.parse_type('int'), inp),
                     Val(ix.parse_type('char *'), ('ptr', 'ext:debug', ZERO))]
         st.new_obj('ext:debug', 'ext', 1, default='unknown')
+        me = self
+
+        def nested(I, s2, args, node, rty):
+            # the switch function calls itself to re-evaluate an event after a state timeout.  The depth of that recursion
+            # is bounded only because the automaton's time stamp is refreshed from the clock before the nested call (the
+            # nested call then sees only the time that passes meanwhile): a stamp that is merely advanced by the timeout,
+            # or left alone, makes the depth grow with the idle time and the stack overflow after a long silence
+            from .. import mem as _mem
+            a2 = s2.objs.get(me.oid)
+            t = s2.canon(_mem.load_scalar(s2, a2, C(me.field_off('last_ts')), ix.parse_type('unsigned long long'))) if a2 is not None else None
+            n = s2.tags.get('clk.s', 0)
+            ok = t is not None and n > 0 and any(s2.same(t, ('sym', 'clock.s.%d' % i, 0, 1 << 63)) for i in range(n))
+            I.oblige(ok, 'recursion-progress', node,
+                     '%s calls itself with the automaton\'s time stamp %s, which is not a clock reading of this call: the re-evaluation after a timeout '
+                     'recurses once per elapsed timeout period (unbounded stack depth after a long silence)' % (me.switch, short(t) if t is not None else '?'))
+            ixx, f2 = I.prog.resolve(I.ix, me.switch)
+            return I.inline(s2, ixx, f2, args, node, rty)
         I, outs = run_entry(self.prog, AUTOMATA_UNIT, self.switch, setup, port=PortModel(alloc_may_fail=False),
-                            state=st, name='%s[state=%d]' % (self.switch, s))
+                            state=st, name='%s[state=%d]' % (self.switch, s), summaries={self.switch: nested})
         T = self.timeouts[s]
-        elapsed = ('sub', ('sym', 'clock.s.0', 1, 1 << 63), lt)
+        elapsed = ('sub', ('sym', 'clock.s.0', 0, 1 << 63), lt)
         res = []
         for s2, v in outs:
             a2 = s2.objs[self.oid]
